@@ -446,6 +446,8 @@ def snapshot(v, memo=None):
     elif hasattr(v, "__pyvc_snapshot__"):
         c = v.__pyvc_snapshot__(memo)
     elif isinstance(v, tuple):
+        if type(v) is not tuple:  # namedtuple (e.g. SWCNames): immutable configuration, kept as it is
+            return v
         c = tuple(snapshot(x, memo) for x in v)
     elif isinstance(v, dict):
         c = {k: snapshot(x, memo) for k, x in v.items()}
